@@ -129,6 +129,8 @@ DoTamperField(f, j, pos, m) ==
   /\ (f \in {"dalg", "ealg", "hdalgs", "calg"} => pos = "first")   \* first octet of the OBJECT IDENTIFIER: always another, unknown identifier
   /\ (f = "digesttail" => pos = "last")         \* beyond the octets an ECDSA P-256 signature covers
   /\ (f = "content" /\ sc.digestOnly /\ DigestCover(sc) < HashSize(sc.signers[1].dalg) => pos = "first")
+  /\ (f = "certbody" => pos \in {"first", "last"})   \* ... and the first and last character of the name stay printable under mask 1
+  /\ (f = "rid" => pos = "last")                   \* last octet of the serial number / key identifier; the first octets are TLV headers
   /\ (f = "certbody" => m = 1)                  \* PrintableString: other masks leave the character set and the certificate is refused
   /\ (f = "certsig" => pos # "first")            \* first octet of a BIT STRING = number of unused bits: outcome depends on the signature's last bit
   /\ tp' = [pos |-> pos, mask |-> m, cls |-> 0]
